@@ -17,6 +17,7 @@ LEAN_DRIVERS = ["C23"]
 THEOREMS = [
     "RedunModel.C23.put_has_all",
     "RedunModel.C23.put_idempotent",
+    "RedunModel.C23.put_duplicate_skipped",
     "RedunModel.C23.transfer_idempotent",
     "RedunModel.C23.tag_status",
     "RedunModel.C23.new_tag_current_iff",
@@ -41,6 +42,8 @@ ASSUMPTIONS = [
     "repositories: generated task programs (several executions with edits in between), tags on executions / jobs / "
     "values with update and delete history, File-valued and list-of-File results; sqlite on both sides",
     "roots are execution ids (all of them or a random subset), as in the property's quantifier",
+    "concatenated streams: every execution exported on its own and ONE import of the concatenation (records listed "
+    "twice in one put_records call), through put_records directly and through `redun export` / `redun import`",
     "repeated transfer: after the first transfer tags of a root execution are updated / deleted / added in the source and "
     "the same roots are transferred again; Tag / TagEdit rows and the CURRENT tags of source and destination are compared",
     "transfer = RedunClient._sync_records (the body of push and pull) or `redun export` + `redun import` through files",
@@ -226,6 +229,47 @@ def do_transfer(env, src, dst, roots, how):
     return None
 
 
+def concat_transfer(env, src, dst, root_sets, how):
+    """ONE import of the concatenation of several separately exported record streams (overlapping root selections:
+    the same Task / Value / CallNode records occur more than once in the stream).  how = "direct": put_records on
+    the concatenated list; "file": `redun export` per root set into one file (appended), then `redun import`."""
+    from redun.cli import RedunClient
+    if how == "direct":
+        ss, sd = ctl_db.new_scheduler(src), ctl_db.new_scheduler(dst)
+        try:
+            records = []
+            for roots in root_sets:
+                records.extend(ss.backend.get_records(ss.backend.iter_record_ids(list(roots))))
+            return sd.backend.put_records(records), len(records)
+        finally:
+            ctl_db.close_scheduler(ss)
+            ctl_db.close_scheduler(sd)
+    f = os.path.join(env.base, f"concat-{len(os.listdir(env.base))}.json")
+    nrec = 0
+    with open(f, "w") as out:
+        for roots in root_sets:
+            part = f + ".part"
+            c1 = RedunClient()
+            c1.execute(["redun", "--config", config_dir(env, src), "export", "--file", part] + list(roots))
+            try:
+                ctl_db.close_scheduler(c1.scheduler)
+            except Exception:  # noqa: BLE001
+                pass
+            with open(part) as inp:
+                for line in inp:
+                    out.write(line)
+                    nrec += 1
+    c2 = RedunClient()
+    try:
+        c2.execute(["redun", "--config", config_dir(env, dst), "import", "--file", f])
+    finally:
+        try:
+            ctl_db.close_scheduler(c2.scheduler)
+        except Exception:  # noqa: BLE001
+            pass
+    return None, nrec
+
+
 # ------------------------------------------------------------------------------------------------ oracle
 def closure(d, roots):
     """independent walk over a canonical dump: ids of the records reachable from `roots` by the ownership edges
@@ -358,7 +402,7 @@ def run(ctx):
         rng = ctx.rng
         lines, checks = [], []
         v = " ".join("T" if flags[f] else "F" for f in ctl_db.FLAG_NAMES)
-        for i in range(ctx.n(18, 120)):
+        for i in range(ctx.n(14, 120)):
             repo = ctl_db.guarded(ctx, f"repo{i}", lambda i=i: Repo(ctx, env, flags, rng, f"repo{i}"))
             if repo is None:
                 continue
@@ -406,6 +450,27 @@ def run(ctx):
             if d2 != d1 or (n2 not in (None, 0)):
                 ctx.violation(SIG["again"][0], SIG["again"][1], dict(label, reported_new=n2),
                               expected="no change", actual=ctl_db.diff_dumps(d1, d2, ctl_db.MODEL_TABLES))
+            # concatenated record streams with overlaps: every execution exported on its own, ONE import of the
+            # concatenation into a fresh repository (a record listed twice in one put_records call)
+            if len(execs) >= 2:
+                chow = "direct" if i % 2 == 0 else "file"
+                clabel = dict(label, step="import of concatenated per-execution exports", how=chow)
+                dstc = env.new_db()
+                try:
+                    _, nrec = concat_transfer(env, repo.path, dstc, [[e] for e in execs], chow)
+                    dc = ctl_db.dump_db(dstc, I)
+                    idsc = closure(dsrc, [I.id(x) for x in execs])
+                    compare_transfer(ctx, clabel, dsrc, dc, idsc, None)
+                    concat_transfer(env, repo.path, dstc, [[e] for e in execs], chow)
+                    if ctl_db.dump_db(dstc, I) != dc:
+                        ctx.violation(SIG["again"][0], SIG["again"][1], clabel, expected="no change", actual="changed")
+                    ctx.count("concatenated_streams", chow)
+                except Exception as e:  # noqa: BLE001
+                    ctx.violation("C23-duplicate-record-in-stream-not-imported",
+                                  "importing a record stream that lists a record twice (concatenated exports of overlapping "
+                                  "root selections) raises and nothing arrives", clabel,
+                                  expected="every exported record present in the destination", actual=repr(e)[:300],
+                                  kind="history")
             # tags are updated / deleted in the source, then the same roots are transferred again: the destination
             # must end with the same Tag / TagEdit rows and the same CURRENT tags as the source
             edit_tags(repo.path, roots[0])
